@@ -139,11 +139,12 @@ def oracle_c07(scn, run):
     for ik, members in by_ik.items():
         n_logs = sum(1 for l in d if l["ik"] == ik)
         # effects of metadata writes are recognised by their content (their log may not carry the key)
-        eff = n_logs
+        by_content = set()     # each entry is one effect, however many requests of the group it matches
         for i in members:
             q = reqs[i]
             if q["kind"] == "setmeta":
-                eff += sum(1 for l in d if l["type"] == "SET_METADATA" and l["ik"] != ik and l["metadata"].get(q["key"]) == q["val"])
+                by_content |= {l["id"] for l in d if l["type"] == "SET_METADATA" and l["ik"] != ik and l["metadata"].get(q["key"]) == q["val"]}
+        eff = n_logs + len(by_content)
         kinds = sorted({reqs[i]["kind"] for i in members})
         # effects counted by WHO wrote: persisted entries committed by requests carrying this key (whatever key the entry records)
         eff = max(eff, sum(1 for a in prod.values() if a in members))
